@@ -98,6 +98,19 @@ def run_trace(rng, spec, nops, kinds=None, oracles=("xref", "sync", "ctx"), extr
                     and all(Fraction(c) != 0 for _, c in r0["st"]):
                 modelled = True
                 line_op = {"op": "add_rxn", "r": r0["id"], "lb": r0["lb"], "ub": r0["ub"], "st": [[x, c] for x, c in r0["st"]]}
+        if op["op"] == "add_model_mets" and len(op["ms"]) == 1 and op["ms"][0] in UNIV_M:
+            # add_metabolites([Metabolite(m)]): Core.addMet (an id that is taken is filtered out)
+            modelled = True
+            line_op = {"op": "add_met", "m": op["ms"][0]}
+        if op["op"] == "rm_mets" and len(op["ms"]) == 1 and not op["destructive"] and op["ms"][0] in UNIV_M \
+                and not any(op["ms"][0] in [x.id for x in g.members] for g in ex.model.groups):
+            # remove_metabolites([m], destructive=False): Core.rmMet (the loop over the reactions that list it, then the row leaves the solver)
+            modelled = True
+            line_op = {"op": "rm_met", "m": op["ms"][0]}
+        if op["op"] == "imul" and Fraction(op["k"]) != 0:
+            # reaction *= k: Core.imul
+            modelled = True
+            line_op = {"op": "imul", "r": op["r"], "k": op["k"]}
         err = ex.apply(op)
         probs = []
         try:
